@@ -206,6 +206,7 @@ fn main() {
         let g = ["none", "ascii", "latex", "han"][((shard as u64 + seed) % 4) as usize];
         ctx.report.process_first_format = g;
         ctx.report.bump(&format!("worker-process.first-work-in.{}", g));
+        ctx.report.bump(if cfg!(debug_assertions) { "worker-process.build.checked(debug-assertions+overflow-checks)" } else { "worker-process.build.plain-release" });
         if let Some(f) = first_of(g) {
             props::common::prelude(f);
         }
